@@ -303,3 +303,9 @@ func vh_C18_L6_every_parked_writer_is_released_at_shutdown() {
 	vassert(w2 != nil, "and a write now fails at once")
 	vcover("end")
 }
+
+// C18.L7: a failing blocking write can only give back the number it took if nobody else took
+// one in between: the counters are only touched under the stream's write lock (= C20.L14).
+func vh_C18_L7_sequence_numbers_belong_to_the_write_lock() {
+	vh_C20_L14_sequence_numbers_belong_to_the_write_lock()
+}
